@@ -235,6 +235,16 @@ func newEnv(thorough bool) *env {
 		l.Append(t)
 		return t
 	})
+	// iterables of unknown length (Len() absent or -1): views of strings and bytes, and a host iterable
+	for _, src := range []string{`"ab".codepoints()`, `"a".elems()`, `"".codepoints()`, `b"ab".elems()`, `"abc".codepoint_ords()`} {
+		src := src
+		v, err := starlark.EvalOptions(allOn, &starlark.Thread{}, "pool", src, nil)
+		if err != nil {
+			panic("pool " + src + ": " + err.Error())
+		}
+		konst(src, v)
+	}
+	konst("hostiter(3)", hostIter{3})
 	konst("range(2^62)", e.rangeBig)
 	e.pool[len(e.pool)-1].astro = true
 	add("struct", func() starlark.Value {
@@ -246,7 +256,7 @@ func newEnv(thorough bool) *env {
 	konst("time", e.timeV)
 	konst("duration", e.durV)
 
-	subNames := []string{"None", "0", "-1", "2^62", "-2^63", "inf", `""`, `"a b"`, "bytes", "list:self", "dict:frozen", "closure"}
+	subNames := []string{"None", "0", "-1", "2^62", "-2^63", "inf", `""`, `"a b"`, "bytes", "list:self", "dict:frozen", "closure", `"a".elems()`}
 	if thorough {
 		subNames = append(subNames, "True", "1", "2^31+1", "nan", "str:long", "set:large", "tuple:cyclic", "range(2^62)")
 	}
@@ -259,6 +269,30 @@ func newEnv(thorough bool) *env {
 	}
 	return e
 }
+
+// hostIter is a host-defined iterable that has no Len method.
+type hostIter struct{ n int }
+
+func (h hostIter) String() string        { return fmt.Sprintf("hostiter(%d)", h.n) }
+func (h hostIter) Type() string          { return "hostiter" }
+func (h hostIter) Freeze()               {}
+func (h hostIter) Truth() starlark.Bool  { return true }
+func (h hostIter) Hash() (uint32, error) { return 0, fmt.Errorf("unhashable: hostiter") }
+func (h hostIter) Iterate() starlark.Iterator {
+	return &hostIterator{n: h.n}
+}
+
+type hostIterator struct{ i, n int }
+
+func (it *hostIterator) Next(p *starlark.Value) bool {
+	if it.i >= it.n {
+		return false
+	}
+	*p = starlark.MakeInt(it.i)
+	it.i++
+	return true
+}
+func (it *hostIterator) Done() {}
 
 // ---------------------------------------------------------------------------
 // probe sequence: stands in for range(2^62) to find out, without running the
